@@ -158,7 +158,7 @@ class Contract:
                     E.assume(c)
             raise PyRaise(ex)
         if case.returns is not None:
-            res = case.returns()
+            res = _unwrap_is(case.returns())
         elif case.make is not None:
             res = case.make()
         elif case.rtype is not None:
@@ -172,6 +172,16 @@ class Contract:
             for (name, c) in case.post():
                 E.assume(c)
         return res
+
+
+def _unwrap_is(v):
+    if isinstance(v, Is):
+        return v.obj
+    if isinstance(v, tuple):
+        return tuple(_unwrap_is(x) for x in v)
+    if v is NOTHING:
+        return None
+    return v
 
 
 def _default_of(E, fn, name):
@@ -247,9 +257,14 @@ def find_function(loader, qualname):
     return v
 
 
-def verify_unit(loader, contract, registry, timeout_ms=20000, max_paths=MAX_PATHS, deadline=None):
-    """symbolically execute the real function on every path and check it against its contract"""
+def verify_unit(loader, contract, registry, timeout_ms=20000, max_paths=MAX_PATHS, deadline=None, start=None,
+                frontier=None):
+    """symbolically execute the real function on every path and check it against its contract.
+    start: list of (decisions, replay log) to explore instead of the root (a subtree handed to a worker);
+    frontier: stop as soon as that many unexplored subtrees are pending and return them in res.pending
+    (breadth-first), so that the driver can spread them over processes"""
     res = UnitResult(contract.qualname)
+    res.pending = []
     res.props = contract.props
     t0 = time.time()
     try:
@@ -267,18 +282,21 @@ def verify_unit(loader, contract, registry, timeout_ms=20000, max_paths=MAX_PATH
     res.lineno = base.lineno
     res.source = "%s:%d" % (base.module.path, base.lineno)
     loops = dict(registry.loops)
-    work = [([], [])]
+    work = [([], [])] if start is None else list(start)
     only = _os.environ.get("PYVC_ONLY_PATH")
     if only is not None:
         work = [([int(c) for c in only], [])]
     while work:
+        if frontier is not None and len(work) >= frontier:
+            res.pending = work
+            break
         if res.paths >= max_paths:
             res.demoted = "more than %d paths" % max_paths
             break
         if deadline is not None and time.time() > deadline:
             res.demoted = "time budget exhausted after %d paths" % res.paths
             break
-        dec, replay = work.pop()
+        dec, replay = work.pop(0) if frontier is not None else work.pop()
         reset_oids()
         E = Engine(loader, dec, contracts=registry.contracts, loops=loops, unit=contract.target,
                    timeout_ms=timeout_ms, tables=registry.tables, inline=contract.inline, replay=replay)
@@ -489,6 +507,8 @@ def result_eq(E, got, want):
     if want is NOTHING:
         return True
     if isinstance(want, Is):
+        if hasattr(want.obj, "t") and hasattr(got, "t") and type(got) is type(want.obj) and not isinstance(got, (SSeq, SInt, SBool)):
+            return bool(got.t.eq(want.obj.t))      # an unexplored reference has no identity of its own: same term
         return got is want.obj
     if isinstance(got, tuple) and isinstance(want, tuple):
         if len(got) != len(want):
